@@ -295,6 +295,33 @@ func runC20(c *core.Ctx, ck *Check) {
 						rs = gen.Hostile(gen.RangeOne(e.Name, r), r)
 					case 1: // a range anchored on pool members
 						rs = anchoredRange(e.Name, p, r)
+						if syn, ok := CmpTable[e.Name]; ok && len(syn.or) > 0 && r.IntN(4) == 0 {
+							// enumeration: 16..40 exact pool members joined by OR (set-based fast paths for long lists)
+							cnt := []int{16, 17, 20, 32, 33, 40}[r.IntN(6)]
+							at := r.IntN(len(idx))
+							var parts []string
+							for x := 0; x < cnt; x++ {
+								k2 := at + r.IntN(cnt) - cnt/2
+								if k2 < 0 {
+									k2 = 0
+								}
+								if k2 >= len(idx) {
+									k2 = len(idx) - 1
+								}
+								m := p.Strs[idx[k2]]
+								if !boundOK(e.Name, m) {
+									continue
+								}
+								if r.IntN(2) == 0 {
+									m = "=" + m
+								}
+								parts = append(parts, m)
+							}
+							if len(parts) >= 16 {
+								rs = strings.Join(parts, syn.or[r.IntN(len(syn.or))])
+								w.Count("long_enumeration_ranges", 1)
+							}
+						}
 					default:
 						rs = gen.RangeOne(e.Name, r)
 					}
